@@ -15,10 +15,22 @@ def element_of(name):
     return s[:1] if s else None
 
 
+def clamp(v):
+    return round(min(9999.999, max(-999.999, v)), 3)
+
+
 def coord(rng, wide=False):
     if wide and rng.random() < 0.15:
         return round(rng.choice([-999.999, 9999.999, -0.001, 0.0, 1234.567, -123.456]), 3)
     return round(rng.uniform(-60, 90), 3)
+
+
+def _sh(v, d):
+    """shift that never leaves the %8.3f range"""
+    w = v + d
+    if not (-999.999 <= w <= 9999.999):
+        w = v - d
+    return round(w, 3)
 
 
 def random_table(rng, nmodels=None, shared_identities=True, altlocs=True, close_pairs=True, dup_names=True, hetatm=True,
@@ -31,6 +43,7 @@ def random_table(rng, nmodels=None, shared_identities=True, altlocs=True, close_
     if blank_chain:
         chains[0] = " "
     template = []  # model-independent description
+    used_keys = set()
     serial = 0
     for ch in chains:
         num = rng.choice([-5, -1, 0, 1, 1, 1, 10, 995, 9990])
@@ -38,6 +51,9 @@ def random_table(rng, nmodels=None, shared_identities=True, altlocs=True, close_
             resname = rng.choice(RESNAMES)
             rec = "HETATM" if (hetatm and resname in ("HOH", "MG", "PSU", "5MC", "2MG", "H2U") and rng.random() < 0.8) else "ATOM"
             icode = rng.choice([None, None, None, "A", "B"]) if icodes else None
+            while (ch, num, icode) in used_keys:
+                num += 1
+            used_keys.add((ch, num, icode))
             names = rng.sample(ATOM_NAMES, rng.randint(1, 7))
             atoms = []
             for nm in names:
@@ -47,18 +63,18 @@ def random_table(rng, nmodels=None, shared_identities=True, altlocs=True, close_
                 a = rng.choice(atoms)
                 o = rng.choice([0.3, 0.4, 0.5, 0.6, 0.7])
                 a["alt"], a["occ"] = "A", o
-                twin = {"name": a["name"], "alt": "B", "xyz": [round(v + rng.choice([0.3, 0.8, 1.5]), 3) for v in a["xyz"]], "occ": round(1.0 - o, 2)}
+                twin = {"name": a["name"], "alt": "B", "xyz": [clamp(v - rng.choice([0.3, 0.8, 1.5])) if v > 9000 else clamp(v + rng.choice([0.3, 0.8, 1.5])) for v in a["xyz"]], "occ": round(1.0 - o, 2)}
                 atoms.insert(atoms.index(a) + 1, twin)
             # a repeated name without alt-loc flag
             if dup_names and rng.random() < 0.15:
                 a = rng.choice(atoms)
-                atoms.append({"name": a["name"], "alt": None, "xyz": [round(v + 2.0, 3) for v in a["xyz"]], "occ": rng.choice([0.2, 0.5, 1.0])})
+                atoms.append({"name": a["name"], "alt": None, "xyz": [clamp(v - 2.0) if v > 9000 else clamp(v + 2.0) for v in a["xyz"]], "occ": rng.choice([0.2, 0.5, 1.0])})
             # a different atom closer than 0.5 A (or just outside)
             if close_pairs and rng.random() < 0.3:
                 a = rng.choice(atoms)
                 other = rng.choice([n for n in ATOM_NAMES if all(n != x["name"] for x in atoms)])
                 d = rng.choice([0.2, 0.3, 0.7, 0.9])
-                atoms.append({"name": other, "alt": None, "xyz": [round(a["xyz"][0] + d, 3), a["xyz"][1], a["xyz"][2]], "occ": rng.choice([0.3, 0.5, 0.8, 1.0])})
+                atoms.append({"name": other, "alt": None, "xyz": [clamp(a["xyz"][0] - d) if a["xyz"][0] > 9000 else clamp(a["xyz"][0] + d), a["xyz"][1], a["xyz"][2]], "occ": rng.choice([0.3, 0.5, 0.8, 1.0])})
             if null_occ:
                 for a in atoms:
                     if rng.random() < 0.3:
@@ -66,6 +82,8 @@ def random_table(rng, nmodels=None, shared_identities=True, altlocs=True, close_
             template.append({"chain": ch, "resseq": num, "icode": icode, "resname": resname, "rec": rec, "atoms": atoms})
             if icode is None or rng.random() < 0.5:
                 num += rng.choice([1, 1, 1, 2, 7])
+            if num > 9999:
+                break
     rows = []
     for m in range(1, nmodels + 1):
         if not shared_identities and m > 1:
@@ -76,7 +94,7 @@ def random_table(rng, nmodels=None, shared_identities=True, altlocs=True, close_
                 serial += 1
                 rows.append({
                     "rec": res["rec"], "serial": serial, "name": a["name"], "alt": a["alt"], "resname": res["resname"], "chain": res["chain"],
-                    "resseq": res["resseq"], "icode": res["icode"], "x": round(a["xyz"][0] + shift, 3), "y": round(a["xyz"][1] - shift, 3), "z": round(a["xyz"][2] + shift / 2, 3),
+                    "resseq": res["resseq"], "icode": res["icode"], "x": _sh(a["xyz"][0], shift), "y": _sh(a["xyz"][1], -shift), "z": _sh(a["xyz"][2], shift / 2),
                     "occ": a["occ"], "b": round(rng.uniform(0, 99.99), 2), "element": element_of(a["name"]),
                     "charge": (rng.choice(["1+", "2+", "1-", "2-"]) if charges and rng.random() < 0.1 else None), "model": m,
                 })
